@@ -151,6 +151,6 @@ def run_shard(spec, col: Collector):
 
 def plan(tier, seed, scale=1.0):
     q = tier == "quick"
-    n, copies = (120, 8) if q else (2500, 16)
+    n, copies = (120, 8) if q else (10000, 16)
     return [dict(shard=f"f{c}", n=int(n * scale), budget_s=60 if q else 900, timeout_s=180 if q else 1500,
                  hash_seed=(seed * 43 + c) % 4294967295) for c in range(copies)]
